@@ -26,6 +26,7 @@ type apiSim struct {
 	w      *World
 	h      *Hist
 	excess int
+	viaSim bool // the world sits on the wrapper SQL driver
 	// non-triviality bookkeeping
 	nt map[string]int
 }
@@ -37,7 +38,21 @@ func apisimExec(r *Run) {
 	a.excess = []int{6, 0, 1, 2, 100}[r.T.Pick([]int{40, 15, 15, 15, 15}, "excess")]
 	w.Cfg.MerkleRoot.MaxBlockHeightExcess = a.excess
 	r.Cfg["excess"] = a.excess
-	w.Open()
+	// metrics can only be switched on once per process (package-level registry): the runner gives every other worker
+	// process of the C16 check the option metrics=1 (the request tracker then wraps every handler)
+	if r.Prop == "C16" {
+		w.Cfg.Metrics.Enabled = r.Opt["metrics"] == "1"
+		r.Cfg["metrics"] = w.Cfg.Metrics.Enabled
+	}
+	// a third of the C02 runs sit on the wrapper SQL driver: a header can then be stored BETWEEN two reads of one
+	// verify request (c02Concurrent)
+	if r.Prop == "C02" && r.T.Chance(1, 3, "via-sql-wrapper") {
+		a.viaSim = true
+		defer func() { sqlQueryHook = nil }()
+		w.OpenSim()
+	} else {
+		w.Open()
+	}
 	h := NewHist(r, w)
 	a.h = h
 	h.SoftChecks = true
@@ -65,6 +80,14 @@ func apisimExec(r *Run) {
 			r.Probe("long-chain")
 			r.Cfg["long"] = n
 		}
+	}
+	if r.Prop == "C08" {
+		// the listing after a reorganisation of a boundary size
+		den := 120
+		if r.Tier == "thorough" {
+			den = 30
+		}
+		h.MaybeBigReorg(den)
 	}
 	pBatch := r.T.Range(20, 100, "p-batch")
 	for i := 0; h.StepOp(i); i++ {
@@ -98,16 +121,29 @@ func (a *apiSim) batch() {
 	r, w := a.r, a.w
 	r.Step++
 	before := w.TableDigest("headers")
+	// "at any moment": a quarter of the read-only batches run while a write transaction of another pooled connection
+	// is open on the headers table (what a reader meets while the sync engine stores a batch)
+	inflight := func(f func()) {
+		if r.T.Chance(1, 4, "write-in-flight") {
+			w.WithWriteInFlight("headers", "header_state", f)
+			return
+		}
+		f()
+	}
 	switch r.Prop {
 	case "C02":
-		a.c02()
+		if a.viaSim && r.T.Chance(1, 3, "verify-while-ingesting") {
+			a.c02Concurrent()
+			return // (this batch ingests on purpose)
+		}
+		inflight(a.c02)
 	case "C04":
-		a.c04()
+		inflight(a.c04)
 	case "C08":
 		a.c08()
 		return // c08 may ingest between pages; it has its own read-only accounting
 	case "C13":
-		a.c13()
+		inflight(a.c13)
 	case "C16":
 		a.c16()
 	}
@@ -266,6 +302,95 @@ func (a *apiSim) c02() {
 	for i := range sv {
 		if string(sv[i].Confirmation) != out.Confirmations[i].Confirmation {
 			r.Fail("C02", "service", "differs-from-http", "service verdict %d = %s, HTTP said %s", i, sv[i].Confirmation, out.Confirmations[i].Confirmation)
+		}
+	}
+}
+
+// c02Concurrent: one verify request during which a new tip header is stored between two of the request's reads.
+// Every verdict has to be the verdict of the store before OR after that header (per item: the request is not a
+// snapshot), never one that belongs to neither.
+func (a *apiSim) c02Concurrent() {
+	r, h := a.r, a.h
+	t := r.T
+	m := h.m
+	lc := m.LongestChain()
+	tip := int64(len(lc) - 1)
+	best := m.Best()
+	raw := RawHeader{Prev: best.Hash, Merkle: h.uniqueHash("merkle"), Version: 0x20000000, Bits: bitsNormal[0], Time: h.baseTs + h.ctr*600, Nonce: h.ctr}
+	rootX := raw.Merkle.String()
+	verdict := func(root string, height, tipH int64, chain func(int64) string) string {
+		if height >= 0 && chain(height) == root {
+			return "CONFIRMED"
+		}
+		if height > tipH && height-tipH <= int64(a.excess) {
+			return "UNABLE_TO_VERIFY"
+		}
+		return "INVALID"
+	}
+	preRoots := map[int64]string{} // (taken now: the model moves on when the header is stored)
+	for _, x := range lc {
+		preRoots[int64(x.Height)] = x.Raw.Merkle.String()
+	}
+	pre := func(hh int64) string { return preRoots[hh] }
+	post := func(hh int64) string {
+		if hh == tip+1 {
+			return rootX
+		}
+		return pre(hh)
+	}
+	items := []verifyItem{{rootX, tip + 1}, {lc[tip].Raw.Merkle.String(), tip}, {h.uniqueHash("unknown-root").String(), tip + 1},
+		{rootX, tip + 1 + int64(a.excess)}, {h.uniqueHash("unknown-root").String(), tip + 1 + int64(a.excess)}, {rootX, tip}}
+	// a drawn subset in a drawn order
+	n := t.Range(1, len(items), "cv-n")
+	for i := 0; i < n; i++ {
+		j := i + t.Draw(len(items)-i, "cv-pick")
+		items[i], items[j] = items[j], items[i]
+	}
+	items = items[:n]
+	at := t.Range(1, n+1, "cv-at") // the header arrives before the at-th read of the request (0-based)
+	seen := 0
+	sqlQueryHook = func(string) {
+		if seen == at {
+			sqlQueryHook = nil
+			h.Submit(raw, "during-verify")
+			r.Fault("header-stored-between-two-reads")
+		}
+		seen++
+	}
+	body, _ := json.Marshal(items)
+	code, resp := a.w.HTTP("POST", "/api/v1/chain/merkleroot/verify", body, nil)
+	fired := sqlQueryHook == nil
+	sqlQueryHook = nil
+	r.Logf("verify (header stored before read %d: %v) %s -> %d", at, fired, string(body), code)
+	var out struct {
+		Confirmations []struct {
+			BlockHeight  int64  `json:"blockHeight"`
+			MerkleRoot   string `json:"merkleRoot"`
+			Confirmation string `json:"confirmation"`
+		} `json:"confirmations"`
+	}
+	if code != 200 || parseOneJSON(resp, &out) != nil || len(out.Confirmations) != len(items) {
+		r.Fail("C02", "status", fmt.Sprintf("concurrent-ingest,code=%d", code), "verify during ingestion answered %d %s", code, truncate(string(resp), 200))
+	}
+	if !fired {
+		h.Submit(raw, "after-verify") // the request needed fewer reads than drawn: plain sequential case
+	}
+	for i, it := range items {
+		got := out.Confirmations[i].Confirmation
+		p, q := verdict(it.MerkleRoot, it.BlockHeight, tip, pre), verdict(it.MerkleRoot, it.BlockHeight, tip+1, post)
+		if !fired {
+			q = p
+		}
+		if got != p && got != q {
+			kind := "unknown-root"
+			if it.MerkleRoot == rootX {
+				kind = "new-root"
+			} else if it.MerkleRoot == lc[tip].Raw.Merkle.String() {
+				kind = "old-tip-root"
+			}
+			r.Fail("C02", "verdict", fmt.Sprintf("concurrent-ingest,%s,dh=%d,before=%s,after=%s,got=%s", kind, it.BlockHeight-tip, p, q, got),
+				"verify while header %s (height %d) was being stored: item (%s.., h=%d) got %s; the store before it implies %s, the store after it %s (tip %d -> %d, excess %d)",
+				short(raw.Hash()), tip+1, it.MerkleRoot[:8], it.BlockHeight, got, p, q, tip, tip+1, a.excess)
 		}
 	}
 }
@@ -691,6 +816,22 @@ func (a *apiSim) c08() {
 		}
 	}
 	r.Logf("walk batch=%d pages=%d interleave=%v chain=%d", batch, pages, interleave, len(lc0))
+	// two clients: a page one caller holds stays what it was while another caller asks for a different page (the
+	// answer of the service belongs to whoever received it)
+	if lcN := m.LongestChain(); len(lcN) >= 3 {
+		b1, b2 := t.Range(1, len(lcN), "two-clients-batch-1"), t.Range(1, len(lcN), "two-clients-batch-2")
+		k2 := lcN[t.Draw(len(lcN)-1, "two-clients-key")].Raw.Merkle.String()
+		pa, errA := w.Svc.Merkleroots.GetMerkleRoots(b1, "")
+		if errA == nil && pa != nil {
+			snap, _ := json.Marshal(pa)
+			_, _ = w.Svc.Merkleroots.GetMerkleRoots(b2, k2)
+			_, _ = w.Svc.Merkleroots.GetMerkleRoots(b1+1, k2)
+			if again, _ := json.Marshal(pa); string(again) != string(snap) {
+				r.Fail("C08", "page-changed-in-callers-hands", "second-request", "the page returned for (batchSize %d, from the start) read %s when it was returned and reads %s after another caller asked for (batchSize %d, key %s..)", b1, truncate(string(snap), 160), truncate(string(again), 160), b2, k2[:8])
+			}
+			r.Probe("two-clients-pages")
+		}
+	}
 	if pages >= 3 && staleSibling {
 		a.nt["walk>=3pages+stale-sibling"]++
 	}
@@ -928,7 +1069,9 @@ func (a *apiSim) c16() {
 	r, w, m := a.r, a.w, a.h.m
 	t := r.T
 	// (an empty path segment does not reach a registered route - gin answers its plain-text 404 - so it is not generated)
-	badHashes := []string{"zz", "0", strings.Repeat("f", 64), strings.Repeat("0", 63), strings.Repeat("ab", 40), "null", "%00", "..", strings.Repeat("A", 300), "-1", "0x00"}
+	badHashes := []string{"zz", "0", strings.Repeat("f", 64), strings.Repeat("0", 63), strings.Repeat("ab", 40), "null", "%00", "..", strings.Repeat("A", 300), "-1", "0x00",
+		// bytes that are not UTF-8 (they reach the handler percent-decoded)
+		"\xff", "\xc3\x28", "\xfe\xfe", "ab\x80cd", "\xed\xa0\x80"}
 	badNums := []string{"", "abc", "-1", "-2147483649", "2147483648", "99999999999999999999", "1.5", "1e3", " 1", "0x10", "+5", "null"}
 	someHash := func() string {
 		switch t.Pick([]int{40, 40, 20}, "h-kind") {
@@ -1050,8 +1193,15 @@ func (a *apiSim) c16() {
 		r.Logf("req %s %s body=%q -> %d", method, path, truncate(string(body), 80), code)
 		desc := fmt.Sprintf("%s %s body=%q", method, path, truncate(string(body), 120))
 		if w.Sniffer.panics.Load() != panBefore {
-			last, _ := w.Sniffer.last.Load().(string)
-			r.Fail("C16", "handler-panic", route, "%s: handler panicked (recovered by gin): %s", desc, truncate(last, 300))
+			// a panic that gin recovered: the client's answer is what counts (a panic in a deferred function
+			// AFTER the handler has answered leaves the answer intact - with metrics enabled the request tracker
+			// does that for paths that are not UTF-8; noted in DESIGN 11.3, not a violation of the statement)
+			var vv any
+			if code >= 500 || code == 0 || parseOneJSON(resp, &vv) != nil {
+				last, _ := w.Sniffer.last.Load().(string)
+				r.Fail("C16", "handler-panic", route, "%s -> %d: handler panicked (recovered by gin): %s", desc, code, truncate(last, 300))
+			}
+			r.Probe("panic-after-the-answer")
 		}
 		if code >= 500 {
 			r.Fail("C16", "5xx", route, "%s -> %d %s", desc, code, truncate(string(resp), 200))
